@@ -833,3 +833,385 @@ Example C01_restart_needs_first_symbol_refuted :
         copy_log 0 ++ copy_log 1 ++ [EvBuilder 7 WStore; EvOpen (7, 2%nat) true; EvWrite (7, 2%nat) [1; 2; 3; 4] true]).
 Proof. vm_compute; split; reflexivity. Qed.
 (* ===== end block: C01Transfers ===== *)
+
+From FluteV Require Import Proofs.C01FQ.
+(* ===== block: C01FQ ===== *)
+(* ---------------- RaptorQ (FEC 6) and Raptor (FEC 1), Proofs/C01FQ.v ----------------
+   The clean-channel theorems above, PROVED for the two schemes whose decoder AND encoder are oracles of the models.
+   Sender: any configuration FileDesc::new accepts with FEC 6 or 1 (is_fq), any window >= 1, any non-empty buffer content of
+   the announced length, either build profile, last transfer or not.  The encoding symbols of source block s are [blk_syms]:
+   RaptorQ - the E-byte chunks of the block, the last one ZERO-PADDED to E (fec/raptorq.rs), then the repair symbols of the
+   oracle [rep]; Raptor - the source symbols the oracle [raptor_src] cuts, then the repair symbols of [rep].
+   [rx_enc rep raptor_src c content s i] = symbol number i of that list = THE RECEIVER-SIDE VIEW OF THE SENDER'S ENCODER:
+   it instantiates the universally quantified [enc] of C02_fq_recoverable_delivers, so the decoder hypotheses
+   fq_oracle_sound / fq_oracle_complete are taken for exactly the symbols the sender model emits.
+   Premises on the encoder oracles (all needed, all satisfiable - examples below):
+   - rep_len_ok: at most [parity] repair symbols per block (C08_transfer_full has it with equality);
+   - rq_rep_sized (RaptorQ): the repair symbols have E bytes; needed only for fq_sized_pkt (C02's premise): a short repair
+     symbol is discarded by the block decoder and the object is delivered all the same  [C01_rq_rep_sized_refuted];
+   - raptor_src_ok (Raptor): for every block of the object the raptor-code encoder accepts the block and cuts it into k
+     symbols that add up to the block  [C01_raptor_src_ok_refuted: a refusing encoder sends nothing; one symbol instead
+     of k: source ESIs missing, object Interrupted; fatter symbols: the close flag in the MIDDLE of the transfer].
+     Both the E-byte chunks (premise of C08_transfer_full) and the semi-equal pieces the crate really cuts (finding D30)
+     satisfy it: D30 does NOT matter for C01 - the payloads are not the E-byte slices, but sender and receiver agree
+     because both sides use the crate  [C01_example_D30_class_delivered: known_D30 = true, P_C08_transfer = false, delivered];
+   That every ESI fits the ESI field of the payload id (fq_esi_fits: al + parity <= 2^24 for RaptorQ, 2^16 for Raptor) is no
+   longer a premise: since the fix D46 it follows from filedesc_accepts (C01_accepts_esi_fits_fq below; before the fix
+   configurations with 2^24 - k / 2^16 - k or more repair symbols per block were accepted and the repair ESIs wrapped onto
+   the source ESIs - replayed on the Rust sender, the analogue of D39 -, see C01_fq_esi_wrap_now_refused).
+   Wire bridge [to_apkt_fq]: FEC 6: ((sbn & 0xFF) << 24) | (esi & 0xFFFFFF), codepoint 6 (alcraptorq.rs); FEC 1:
+   ((sbn & 0xFFFF) << 16) | (esi & 0xFFFF), codepoint 1 (alcraptor.rs); B flag = close flag; no EXT_FTI.
+   Receiver: a fresh object receiver with the FDT entry attached, whose OTI carries the sender's scheme, E, B
+   (oti_matches_fq) and scheme-specific information the decoder accepts (fq_blocks_ok, C02); decoder hypotheses as in C02;
+   L <= max_size_allocated; at most 4097 blocks; E < 2^16; the other environment premises of the No-Code theorem.
+   Conclusion: as for No-Code / Reed-Solomon. *)
+Theorem C01_clean_channel_fq :
+  forall rep raptor_src c content oti E toi max fid files inst md5,
+  is_fq (c_fec c) = true -> filedesc_accepts c = true -> c_tlen c = lenN content -> 0 < c_tlen c ->
+  (1 <= c_window c)%nat ->
+  rep_len_ok rep -> rq_rep_sized rep c content -> raptor_src_ok raptor_src c content ->
+  c_e c < 65536 ->
+  oti_matches_fq c oti -> fq_blocks_ok oti (c_tlen c) -> fdt_entry_for files inst toi oti (c_tlen c) md5 ->
+  writer_accepts E toi -> writes_succeed E toi -> md5_good E content md5 ->
+  fq_oracle_sound E oti content (rx_enc rep raptor_src c content) toi ->
+  fq_oracle_complete E oti content (rx_enc rep raptor_src c content) toi ->
+  c_tlen c <= max -> nb_blocks_of oti (c_tlen c) <= 4097 ->
+  let blocks := blocks_of_buffer rep raptor_src c content in
+  let ps := pkts_of (enc_run (S (S (total_shards blocks))) c [] (est_init blocks)) in
+  let (o, cx) := receive E fid files inst toi max (map (to_apkt_fq (c_fec c) toi) ps) in
+  r_state o = Completed
+  /\ ShapeDone content (toi, 0%nat) toi cx
+  /\ forall m, complete_exact content (m, calls_of (toi, 0%nat) (c_log cx)) = true
+               /\ P_C01_object m content 1 [(m, calls_of (toi, 0%nat) (c_log cx))] = true
+               /\ P_C02_object true content [(m, calls_of (toi, 0%nat) (c_log cx))] = true.
+Proof. exact fq_clean_channel_delivered. Qed.
+Print Assumptions C01_clean_channel_fq.
+
+(* the same after any genuine, well-sized packets (source or repair symbols of the sender's encoder) without the
+   close-object flag, any order, any duplication: [delivered] is the conclusion above, [wire_pkts_fq] the list
+   map (to_apkt_fq (c_fec c) toi) ps above *)
+Theorem C01_clean_channel_fq_after_earlier_packets :
+  forall rep raptor_src c content oti E toi max fid files inst md5,
+  is_fq (c_fec c) = true -> filedesc_accepts c = true -> c_tlen c = lenN content -> 0 < c_tlen c ->
+  (1 <= c_window c)%nat ->
+  rep_len_ok rep -> rq_rep_sized rep c content -> raptor_src_ok raptor_src c content ->
+  c_e c < 65536 ->
+  oti_matches_fq c oti -> fq_blocks_ok oti (c_tlen c) -> fdt_entry_for files inst toi oti (c_tlen c) md5 ->
+  writer_accepts E toi -> writes_succeed E toi -> md5_good E content md5 ->
+  fq_oracle_sound E oti content (rx_enc rep raptor_src c content) toi ->
+  fq_oracle_complete E oti content (rx_enc rep raptor_src c content) toi ->
+  c_tlen c <= max -> nb_blocks_of oti (c_tlen c) <= 4097 ->
+  forall pre, Forall (fun q => fq_genuine_pkt oti content (rx_enc rep raptor_src c content) q = true) pre ->
+              Forall (fun q => fq_sized_pkt oti q = true) pre ->
+              Forall (fun q => a_close_obj q = false) pre ->
+  delivered E fid files inst toi max content (pre ++ wire_pkts_fq rep raptor_src c content toi).
+Proof. exact fq_prefix_then_transfer_delivered. Qed.
+Print Assumptions C01_clean_channel_fq_after_earlier_packets.
+
+(* G1, THE SENDER-SIDE BRIDGE.  (a) what exactly the sender model puts in each packet (P_C08_fq_exact: block of the
+   partition, source block length = k, ESI below the number of encoding symbols of the block, payload = that encoding
+   symbol), every block has its k source symbols, every source ESI of every block is sent, the close flag on the last
+   packet only iff last transfer, no panic - whatever the build profile *)
+Theorem C01_sender_fq_exact : forall rep raptor_src c content,
+  is_fq (c_fec c) = true -> 0 < c_tlen c ->
+  filedesc_accepts c = true -> c_tlen c = lenN content -> (1 <= c_window c)%nat ->
+  raptor_src_ok raptor_src c content ->
+  let blocks := blocks_of_buffer rep raptor_src c content in
+  let outs := enc_run (S (S (total_shards blocks))) c [] (est_init blocks) in
+  let ps := pkts_of outs in
+  P_C08_fq_exact rep raptor_src c content ps = true
+  /\ (let '(al, as_, nal, n) := block_partitioning (c_b c) (c_tlen c) (c_e c) in
+      (forall s, s < n -> exists src, fq_src_syms raptor_src c (blk_buf c content s) (nominal_syms al as_ nal s) = Some src
+                                      /\ lenN src = nominal_syms al as_ nal s)
+      /\ forall s i, s < n -> i < nominal_syms al as_ nal s -> In (s, i) (map (fun p => (p_sbn p, p_esi p)) ps))
+  /\ flags_ok (c_closable c) ps
+  /\ no_panic outs.
+Proof. exact fq_transfer_exact. Qed.
+Print Assumptions C01_sender_fq_exact.
+
+(* (b) on the wire: every packet of the transfer is genuine for the receiver (fq_genuine_pkt w.r.t. rx_enc) and well
+   sized (fq_sized_pkt), keeps its (sbn, esi); every packet list containing the transfer is recoverable (fq_recoverable:
+   every source symbol of every block); the close-object flag is on the last packet only, iff last transfer *)
+Theorem C01_wire_bridge_fq : forall rep raptor_src c content oti toi,
+  is_fq (c_fec c) = true -> filedesc_accepts c = true -> c_tlen c = lenN content -> 0 < c_tlen c ->
+  (1 <= c_window c)%nat ->
+  rep_len_ok rep -> rq_rep_sized rep c content -> raptor_src_ok raptor_src c content ->
+  oti_matches_fq c oti ->
+  Forall (fun q => fq_genuine_pkt oti content (rx_enc rep raptor_src c content) q = true) (wire_pkts_fq rep raptor_src c content toi)
+  /\ Forall (fun q => fq_sized_pkt oti q = true) (wire_pkts_fq rep raptor_src c content toi)
+  /\ map (rs_pid oti) (wire_pkts_fq rep raptor_src c content toi)
+     = map (fun p => (p_sbn p, p_esi p)) (transfer_pkts rep raptor_src c content)
+  /\ (forall l, incl (wire_pkts_fq rep raptor_src c content toi) l -> fq_recoverable oti (lenN_ content) l = true)
+  /\ exists body lst, wire_pkts_fq rep raptor_src c content toi = body ++ [lst]
+                      /\ Forall (fun q => a_close_obj q = false) body /\ a_close_obj lst = c_closable c.
+Proof. exact wire_facts_fq. Qed.
+Print Assumptions C01_wire_bridge_fq.
+
+(* RaptorQ: sender and receiver agree on the source symbols - the sender's source symbol (s, i) is the E-byte slice of
+   the content at its RFC 5052 offset zero-padded to E, i.e. symbol (offset of s) + i of the zero-padded object; hence the
+   sender's encoder is a systematic code over the padded object ([rs_symbol], the encoder C02's toy instances use) and
+   the systematic toy decoder satisfies both decoder hypotheses for EVERY accepted RaptorQ object: the premises of
+   C01_clean_channel_fq are jointly satisfiable for all of them *)
+Theorem C01_rq_source_symbol_is_padded_slice : forall rep rsrc c content al as_ nal n,
+  c_fec c = RaptorQ -> filedesc_accepts c = true -> c_tlen c = lenN content -> 0 < c_tlen c ->
+  block_partitioning (c_b c) (c_tlen c) (c_e c) = (al, as_, nal, n) ->
+  forall s i, s < n -> i < nominal_syms al as_ nal s ->
+  rx_enc rep rsrc c content s i = pad (N.to_nat (c_e c)) (sym_slice (c_e c) content (sym_off al as_ nal s + i)).
+Proof. exact rq_source_symbol. Qed.
+Print Assumptions C01_rq_source_symbol_is_padded_slice.
+
+Theorem C01_rq_oracle_hypotheses_satisfiable : forall rep rsrc c content oti toi,
+  c_fec c = RaptorQ -> filedesc_accepts c = true -> c_tlen c = lenN content -> 0 < c_tlen c -> oti_matches_fq c oti ->
+  fq_oracle_sound env_sys oti content (rx_enc rep rsrc c content) toi
+  /\ fq_oracle_complete env_sys oti content (rx_enc rep rsrc c content) toi.
+Proof. exact rq_oracle_hypotheses_satisfiable. Qed.
+Print Assumptions C01_rq_oracle_hypotheses_satisfiable.
+
+(* the vocabulary, unfolded once *)
+Theorem C01_fq_statements : forall rep rsrc c content oti s i,
+  (rx_enc rep rsrc c content s i = nth (N.to_nat i) (blk_syms rep rsrc c content s) [])
+  /\ (blk_syms rep rsrc c content s
+      = let '(al, as_, nal, _) := block_partitioning (c_b c) (c_tlen c) (c_e c) in
+        match (match c_fec c with
+               | Raptor => rsrc (blk_buf c content s) (nominal_syms al as_ nal s)
+               | _ => Some (map (pad (N.to_nat (c_e c))) (chunks (N.to_nat (c_e c)) (blk_buf c content s)))
+               end) with
+        | Some src => src ++ rep (c_fec c) s (blk_buf c content s) (nominal_syms al as_ nal s) (c_parity c)
+        | None => []
+        end)
+  /\ (raptor_src_ok rsrc c content <->
+      (c_fec c = Raptor ->
+       let '(al, as_, nal, n) := block_partitioning (c_b c) (c_tlen c) (c_e c) in
+       forall s, s < n -> exists src, rsrc (blk_buf c content s) (nominal_syms al as_ nal s) = Some src
+                                      /\ lenN src = nominal_syms al as_ nal s /\ sumlen src = lenN (blk_buf c content s)))
+  /\ (rq_rep_sized rep c content <->
+      (c_fec c = RaptorQ ->
+       let '(al, as_, nal, n) := block_partitioning (c_b c) (c_tlen c) (c_e c) in
+       forall s, s < n -> Forall (fun d => lenN d = c_e c)
+                                 (rep RaptorQ s (blk_buf c content s) (nominal_syms al as_ nal s) (c_parity c))))
+  /\ (rep_len_ok rep <-> forall f sbn buf k p, lenN (rep f sbn buf k p) <= p)
+  /\ fq_esi_fits c = (let '(al, _, _, _) := block_partitioning (c_b c) (c_tlen c) (c_e c) in
+                      al + c_parity c <=? match c_fec c with Raptor => 65536 | _ => 16777216 end)
+  /\ (oti_matches_fq c oti <->
+      ro_fec oti = match c_fec c with Raptor => FRaptor | _ => FRaptorQ end /\ ro_e oti = c_e c /\ ro_b oti = c_b c).
+Proof.
+  intros rep rsrc c content oti s i. split; [reflexivity|]. split; [reflexivity|].
+  split; [split; intros X; exact X|]. split; [split; intros X; exact X|]. split; [split; intros X; exact X|].
+  split; [reflexivity|]. split; intros X; exact X.
+Qed.
+Print Assumptions C01_fq_statements.
+
+(* non-vacuity: RaptorQ - the 5-byte object of C02 (E = 2, B = 2, one repair symbol per block, two interleaved blocks, last
+   source symbol padded to [5; 0]); Raptor - a 16-byte object, E = 2, B = 4 (two blocks of 4 symbols); toy encoders: repair
+   symbols [7; 7], E-byte chunks; systematic toy decoder env_sys: the packets, their wire image, the delivery computed
+   through enc_run, the bridge and receive; genuineness, sizes, recoverability by computation; and by the theorem *)
+Example C01_example_wire_fq :
+  map (fun p => (p_sbn p, p_esi p, p_payload p, p_close p, p_k p, p_src p))
+      (transfer_pkts junk_rep no_rsrc (exq_cfg true) exr_content)
+  = [(0, 0, [1; 2], false, 2, true); (1, 0, [5; 0], false, 1, true); (0, 1, [3; 4], false, 2, true);
+     (1, 1, [7; 7], false, 1, false); (0, 2, [7; 7], true, 2, false)]
+  /\ map a_pidbytes (wire_pkts_fq junk_rep no_rsrc (exq_cfg true) exr_content 7)
+     = [[0; 0; 0; 0]; [1; 0; 0; 0]; [0; 0; 0; 1]; [1; 0; 0; 1]; [0; 0; 0; 2]]
+  /\ map a_pidbytes (wire_pkts_fq junk_rep (chunk_rsrc 2) (exp_cfg true) ex16 7)
+     = [[0; 0; 0; 0]; [0; 1; 0; 0]; [0; 0; 0; 1]; [0; 1; 0; 1]; [0; 0; 0; 2]; [0; 1; 0; 2]; [0; 0; 0; 3]; [0; 1; 0; 3];
+        [0; 0; 0; 4]; [0; 1; 0; 4]]
+  /\ summary 7 (receive env_sys 1 exq_files None 7 1000 (wire_pkts_fq junk_rep no_rsrc (exq_cfg true) exr_content 7))
+     = (Completed, [CallOpen true; CallWrite [1; 2; 3; 4] true; CallWrite [5] true; CallComplete])
+  /\ summary 7 (receive env_sys 1 exq_files None 7 1000 (wire_pkts_fq junk_rep no_rsrc (exq_cfg false) exr_content 7))
+     = (Completed, [CallOpen true; CallWrite [1; 2; 3; 4] true; CallWrite [5] true; CallComplete])
+  /\ summary 7 (receive env_sys 1 exp16_files None 7 1000 (wire_pkts_fq junk_rep (chunk_rsrc 2) (exp_cfg true) ex16 7))
+     = (Completed, [CallOpen true; CallWrite [1; 2; 3; 4; 5; 6; 7; 8] true; CallWrite [9; 10; 11; 12; 13; 14; 15; 16] true;
+                    CallComplete])
+  /\ forallb (fq_genuine_pkt exq_oti exr_content (rx_enc junk_rep no_rsrc (exq_cfg true) exr_content))
+             (wire_pkts_fq junk_rep no_rsrc (exq_cfg true) exr_content 7) = true
+  /\ forallb (fq_sized_pkt exq_oti) (wire_pkts_fq junk_rep no_rsrc (exq_cfg true) exr_content 7) = true
+  /\ fq_recoverable exq_oti 5 (wire_pkts_fq junk_rep no_rsrc (exq_cfg true) exr_content 7) = true
+  /\ forallb (fq_genuine_pkt exp16_oti ex16 (rx_enc junk_rep (chunk_rsrc 2) (exp_cfg true) ex16))
+             (wire_pkts_fq junk_rep (chunk_rsrc 2) (exp_cfg true) ex16 7) = true
+  /\ fq_recoverable exp16_oti 16 (wire_pkts_fq junk_rep (chunk_rsrc 2) (exp_cfg true) ex16 7) = true.
+Proof. vm_compute. repeat split. Qed.
+
+Example C01_example_fq_by_theorem : forall closable,
+  delivered env_sys 1 exq_files None 7 1000 exr_content (wire_pkts_fq junk_rep no_rsrc (exq_cfg closable) exr_content 7)
+  /\ delivered env_sys 1 exp16_files None 7 1000 ex16 (wire_pkts_fq junk_rep (chunk_rsrc 2) (exp_cfg closable) ex16 7).
+Proof. intros closable. split; [exact (exq_clean_channel_by_theorem closable)|exact (exp_clean_channel_by_theorem closable)]. Qed.
+
+(* finding D30 does not matter for C01: a toy model of the raptor-code crate on both sides (semi_rsrc cuts a block into k
+   pieces of ceil / floor(len / k) bytes, semi_dec cuts the symbols - zero-padded by flute's block decoder - back and
+   concatenates); 10 bytes, E = 3, B = 4: one block [1;2;3] [4;5;6] [7;8] [9;10]: known_D30, C08's predicate false, the
+   symbols the decoder is handed, the delivery computed - and by the theorem (raptor_src_ok and both decoder hypotheses hold) *)
+Example C01_example_D30_class_delivered :
+  known_D30 (exd_cfg true) = true /\ filedesc_accepts (exd_cfg true) = true
+  /\ map (fun p => (p_sbn p, p_esi p, p_payload p, p_close p, p_k p, p_src p))
+         (transfer_pkts junk_rep semi_rsrc (exd_cfg true) ex10)
+     = [(0, 0, [1; 2; 3], false, 4, true); (0, 1, [4; 5; 6], false, 4, true); (0, 2, [7; 8], false, 4, true);
+        (0, 3, [9; 10], false, 4, true); (0, 4, [7; 7], true, 4, false)]
+  /\ P_C08_transfer (exd_cfg true) ex10 None (transfer_pkts junk_rep semi_rsrc (exd_cfg true) ex10) = false
+  /\ map (fun i => fq_stored exd30_oti 10 0 (rx_enc junk_rep semi_rsrc (exd_cfg true) ex10 0 i)) [0; 1; 2; 3]
+     = [[1; 2; 3]; [4; 5; 6]; [7; 8; 0]; [9; 10; 0]]
+  /\ summary 7 (receive env_semi 1 exd30_files None 7 1000 (wire_pkts_fq junk_rep semi_rsrc (exd_cfg true) ex10 7))
+     = (Completed, [CallOpen true; CallWrite [1; 2; 3; 4; 5; 6; 7; 8; 9; 10] true; CallComplete]).
+Proof. exact exd30_computed. Qed.
+
+Example C01_example_D30_class_by_theorem : forall closable,
+  delivered env_semi 1 exd30_files None 7 1000 ex10 (wire_pkts_fq junk_rep semi_rsrc (exd_cfg closable) ex10 7).
+Proof. exact exd30_by_theorem. Qed.
+
+(* every ESI of an accepted non-empty RaptorQ / Raptor object fits the ESI field of its payload id (D46 fixed):
+   FileDesc::new checks k + parity <= 2^24 (RaptorQ) / 2^16 (Raptor) for every block length that exists *)
+Theorem C01_accepts_esi_fits_fq : forall c,
+  is_fq (c_fec c) = true -> filedesc_accepts c = true -> 0 < c_tlen c -> fq_esi_fits c = true.
+Proof. exact accepts_esi_fits_fq. Qed.
+Print Assumptions C01_accepts_esi_fits_fq.
+
+(* the former premise fq_esi_fits (D46): RaptorQ, E = 1, B = 1, a 1-byte object, 2^24 repair symbols per block, and Raptor,
+   E = 1, B = 4, 4 bytes, 65535 repair symbols (the configuration replayed on the Rust sender: wire ESIs 65536.. went out as
+   0, 1, 2) were accepted by FileDesc::new until the fix; they are now refused, one repair symbol less is accepted.  What the
+   wire bridge does with such an ESI: the repair symbol with ESI 2^24 goes out with payload id 00 00 00 00 = (sbn 0, esi 0),
+   the payload id of the source symbol, and is not a genuine packet (wrapq_enc: source symbol [1], that repair symbol [9]) *)
+Example C01_fq_esi_wrap_now_refused :
+  filedesc_accepts wrapq_cfg = false /\ fq_esi_fits wrapq_cfg = false
+  /\ filedesc_accepts (mk_ecfg RaptorQ 1 1 16777215 1 true 1 false) = true
+  /\ filedesc_accepts wrapp_cfg = false /\ fq_esi_fits wrapp_cfg = false
+  /\ filedesc_accepts (mk_ecfg Raptor 1 4 65532 1 true 4 false) = true
+  /\ oti_matches_fq wrapq_cfg wrapq_oti
+  /\ (let p := mk_pkt 0 16777216 [9] false 1 false in
+      rs_pid wrapq_oti (to_apkt_fq RaptorQ 7 p) = (0, 0) /\ a_pidbytes (to_apkt_fq RaptorQ 7 p) = [0; 0; 0; 0]
+      /\ fq_genuine_pkt wrapq_oti [1] wrapq_enc (to_apkt_fq RaptorQ 7 p) = false)
+  /\ (let p := mk_pkt 0 65536 [9] false 1 false in a_pidbytes (to_apkt_fq Raptor 7 p) = [0; 0; 0; 0]).
+Proof. exact fq_esi_wrap_now_refused. Qed.
+
+(* REFUTED without raptor_src_ok (16-byte Raptor object above): an encoder that refuses the blocks: nothing is sent; an
+   oracle that returns each block as ONE symbol while k = 4: source ESIs 1..3 never sent, not recoverable, the close flag
+   interrupts the object; symbols with two extra bytes: close flag on the last packet of block 0, in the middle (window 1) *)
+Example C01_raptor_src_ok_refuted :
+  filedesc_accepts (exp_cfg true) = true
+  /\ wire_pkts_fq junk_rep no_rsrc (exp_cfg true) ex16 7 = []
+  /\ map (rs_pid exp16_oti) (wire_pkts_fq junk_rep lazy_rsrc (exp_cfg true) ex16 7) = [(0, 0); (1, 0); (0, 1); (1, 1)]
+  /\ fq_recoverable exp16_oti 16 (wire_pkts_fq junk_rep lazy_rsrc (exp_cfg true) ex16 7) = false
+  /\ summary 7 (receive env_sys 1 exp16_files None 7 1000 (wire_pkts_fq junk_rep lazy_rsrc (exp_cfg true) ex16 7))
+     = (Interrupted, [CallOpen true; CallInterrupted])
+  /\ map (fun q => (rs_pid exp16_oti q, a_close_obj q))
+         (wire_pkts_fq junk_rep fat_rsrc (mk_ecfg Raptor 2 4 1 1 true 16 true) ex16 7)
+     = [(0, 0, false); (0, 1, false); (0, 2, false); (0, 3, false); (0, 4, true);
+        (1, 0, false); (1, 1, false); (1, 2, false); (1, 3, false); (1, 4, true)].
+Proof. exact raptor_src_ok_refuted. Qed.
+
+(* rq_rep_sized is needed for fq_sized_pkt only: 1-byte repair symbols with E = 2 are not well sized, are discarded by the
+   block decoder, and the object is delivered all the same *)
+Example C01_rq_rep_sized_refuted :
+  map (fq_sized_pkt exq_oti) (wire_pkts_fq short_rep no_rsrc (exq_cfg true) exr_content 7) = [true; true; true; false; false]
+  /\ summary 7 (receive env_sys 1 exq_files None 7 1000 (wire_pkts_fq short_rep no_rsrc (exq_cfg true) exr_content 7))
+     = (Completed, [CallOpen true; CallWrite [1; 2; 3; 4] true; CallWrite [5] true; CallComplete]).
+Proof. exact rq_rep_sized_refuted. Qed.
+
+(* ---------------- session level, a RaptorQ / Raptor object in a No-Code session ----------------
+   As C01_session_clean_channel_rs, for ONE accepted non-empty object sent with its own RaptorQ / Raptor OTI
+   (TransferConfig.oti with FEC 6 or 1 and its scheme-specific element); the session OTI stays No-Code, so the FDT instance
+   still travels as one No-Code packet.  The File element of the document the sender model publishes carries the
+   FileDesc's OTI [used_oti]: the object's OTI with Z := number of source blocks (proved to fit u8 / u16 for an accepted
+   object, and to keep the OTI well formed); the receiver's entry OTI [obj_roti_fq] is read back from it.  [sender_ok_fq]
+   (incl. the premises on the encoder oracles), [receiver_ok_fq] (fq_blocks_ok for that OTI, the two decoder hypotheses for
+   the receiver-side view of the sender's encoder, L <= max cache), [session_meta_delivered_fq] are unfolded in
+   C01_session_statements_fq.  [obj_wire_fq] = the wire image of one whole transfer, with EXT_FTI on every packet or none.
+   Conclusion as for No-Code / Reed-Solomon: session_delivered, the oracle reads back the instance, the metadata flute's
+   receiver computes from the parsed document is what the sender was given - all ten fields, incl. the OTI in use. *)
+Theorem C01_session_clean_channel_fq :
+  forall rep raptor_src cfg complete now m content E rcfg nowr id sct,
+  sender_ok_fq rep raptor_src cfg now m content -> doc_fits cfg complete now m ->
+  receiver_ok_fq rep raptor_src E rcfg nowr sct cfg now m content ->
+  forall (window : nat) (closable debug fti : bool), (1 <= window)%nat ->
+  let '(_, r, cx) := recv_run E fdt_oracle rcfg recv0
+                       (map (fun p => RvPush p nowr)
+                            (sess_fdt_pkt cfg complete now m id sct
+                             :: obj_wire_fq rep raptor_src cfg m window closable debug content fti)) ctx0 in
+  session_meta_delivered_fq cfg complete now m content rcfg r cx.
+Proof. exact fq_session_clean_channel. Qed.
+Print Assumptions C01_session_clean_channel_fq.
+
+Theorem C01_session_statements_fq : forall rep raptor_src cfg complete now m content E rcfg nowr sct r cx,
+  let o := the_oti (c_oti cfg) m in
+  let c := mk_ecfg (if fec_id o =? 1 then Raptor else RaptorQ) (esl o) (max_sbl o) (parity o) 1 false (FdtInst.m_tlen m) false in
+  (sender_ok_fq rep raptor_src cfg now m content <->
+   fec_id (c_oti cfg) = 0 /\ oti_wf (c_oti cfg) /\ 0 < max_sbl (c_oti cfg)
+   /\ (fec_id o = 6 \/ fec_id o = 1) /\ oti_wf o /\ m_cenc m = 0
+   /\ filedesc_accepts c = true
+   /\ FdtInst.m_tlen m = lenN content /\ 0 < FdtInst.m_tlen m /\ m_toi m <> 0 /\ FdtInst.m_clen m < 18446744073709551616
+   /\ time_in_era now /\ spec_expires now (c_dur cfg) < 4294967296 /\ meta_ok cfg now m
+   /\ rep_len_ok rep /\ rq_rep_sized rep c content /\ raptor_src_ok raptor_src c content)
+  /\ (obj_roti_fq cfg m
+      = mk_roti (match (if fec_id (used_oti cfg m) =? 1 then Raptor else RaptorQ) with Raptor => FRaptor | _ => FRaptorQ end)
+                (esl (used_oti cfg m)) (max_sbl (used_oti cfg m)) (parity (used_oti cfg m))
+                (match sch (used_oti cfg m) with SchRaptorQ z n al | SchRaptor z n al => Some (z, n, al) | _ => None end))
+  /\ (receiver_ok_fq rep raptor_src E rcfg nowr sct cfg now m content <->
+      writer_accepts E (m_toi m) /\ writes_succeed E (m_toi m)
+      /\ md5_good E content (option_map bytes_of_str (FdtInst.m_md5 m))
+      /\ fq_blocks_ok (obj_roti_fq cfg m) (lenN_ content)
+      /\ fq_oracle_sound E (obj_roti_fq cfg m) content (rx_enc rep raptor_src c content) (m_toi m)
+      /\ fq_oracle_complete E (obj_roti_fq cfg m) content (rx_enc rep raptor_src c content) (m_toi m)
+      /\ lenN_ content <= cf_max_cache rcfg
+      /\ nb_blocks_of (obj_roti_fq cfg m) (lenN_ content) <= 4097
+      /\ (cf_exp_check rcfg = false
+          \/ (match sct with Some t => t | None => nowr end
+              <= Z.of_N ((spec_expires now (c_dur cfg) - 2208988800) * 1000000) * 1000)%Z))
+  /\ (session_meta_delivered_fq cfg complete now m content rcfg r cx <->
+      session_delivered rcfg (sess_inst_fq cfg now m) content (m_toi m) r cx
+      /\ Xml.parse_fdt (str_of_bytes (fdt_doc cfg complete now m)) = Some (get_fdt_instance cfg complete now [m])
+      /\ fdt_oracle (fdt_doc cfg complete now m) = Some (sess_inst_fq cfg now m)
+      /\ exists rm,
+           recv_meta b64_decode (get_fdt_instance cfg complete now [m]) (to_file_xml (used_oti cfg m) m now) = MOk rm
+           /\ P_C10_meta cfg false now m rm = true
+           /\ ometa_of_rmeta rm = ometa_given cfg now m
+           /\ P_C01_object (ometa_given cfg now m) content 1
+                           [(ometa_of_rmeta rm, calls_of (m_toi m, 0%nat) (c_log cx))] = true)
+  /\ (sess_inst_fq cfg now m
+      = mk_fi [mk_ff (m_toi m) CNull (Some (obj_roti_fq cfg m)) (FdtInst.m_tlen m)
+                     (option_map bytes_of_str (FdtInst.m_md5 m)) (Some (FdtInst.m_clen m))
+                     (match FdtInst.m_cache m with Some CCNoCache => true | _ => false end)]
+              (Some (nocode_roti (c_oti cfg))) (Some (expiry_ns cfg now))).
+Proof. exact fq_session_statements. Qed.
+Print Assumptions C01_session_statements_fq.
+
+(* the FileDesc's OTI of an accepted RaptorQ / Raptor object: same FEC id, E, B, parity; well formed (Z fits its field) *)
+Theorem C01_used_oti_fq : forall cfg m,
+  let o := the_oti (c_oti cfg) m in
+  fq_id (fec_id o) -> oti_wf o -> 0 < FdtInst.m_tlen m -> filedesc_accepts (obj_ecfg_fq cfg m 1 false false) = true ->
+  fec_id (used_oti cfg m) = fec_id o /\ esl (used_oti cfg m) = esl o /\ max_sbl (used_oti cfg m) = max_sbl o
+  /\ parity (used_oti cfg m) = parity o /\ oti_wf (used_oti cfg m).
+Proof. exact used_oti_fq. Qed.
+Print Assumptions C01_used_oti_fq.
+
+(* non-vacuity: the session of C01_session_example (No-Code session OTI E = 1400 B = 64, real XML bytes); TOI 7 = the
+   5-byte object with its own OTI FEC 6, E = 2, B = 2, parity 1, (Z, N, Al) = (0, 1, 1) - the document carries Z = 2 -, or
+   the 16-byte object with its own OTI FEC 1, E = 2, B = 4; toy codes as above, MD5 check on: the document fits, the
+   oracle parses it to [sess_inst_fq], FDT packet + the packets of the transfer, last transfer without EXT_FTI /
+   carousel with EXT_FTI: every packet accepted, TOI 7 in rv_completed, the log is the delivery; and by the theorem *)
+Example C01_session_example_fq :
+  (lenN_ exsq_doc <=? 1400) = true
+  /\ fdt_oracle exsq_doc = Some (sess_inst_fq exs_cfg exs_now exsq_m)
+  /\ obj_roti_fq exs_cfg exsq_m = mk_roti FRaptorQ 2 2 1 (Some (2, 1, 1))
+  /\ obj_roti_fq exs_cfg exsp_m = exp16_oti
+  /\ exsq_run (sess_fdt_pkt exs_cfg false exs_now exsq_m 1 exs_sct
+               :: obj_wire_fq junk_rep no_rsrc exs_cfg exsq_m 2 true true exr_content false)
+     = ([POk; POk; POk; POk; POk; POk], [], [7], [], exs_log)
+  /\ exsq_run (sess_fdt_pkt exs_cfg false exs_now exsq_m 1 exs_sct
+               :: obj_wire_fq junk_rep no_rsrc exs_cfg exsq_m 2 false true exr_content true)
+     = ([POk; POk; POk; POk; POk; POk], [], [7], [], exs_log)
+  /\ exsq_run (sess_fdt_pkt exs_cfg false exs_now exsp_m 1 exs_sct
+               :: obj_wire_fq junk_rep (chunk_rsrc 2) exs_cfg exsp_m 2 true true ex16 false)
+     = (repeat POk 11, [], [7], [], exsp_log).
+Proof. exact exsq_computed. Qed.
+
+Example C01_session_example_fq_by_theorem : forall closable fti,
+  (let '(_, r, cx) := recv_run exsq_env fdt_oracle exs_rcfg recv0
+                        (map (fun p => RvPush p exs_nowr)
+                             (sess_fdt_pkt exs_cfg false exs_now exsq_m 1 exs_sct
+                              :: obj_wire_fq junk_rep no_rsrc exs_cfg exsq_m 2 closable true exr_content fti)) ctx0 in
+   session_meta_delivered_fq exs_cfg false exs_now exsq_m exr_content exs_rcfg r cx)
+  /\ (let '(_, r, cx) := recv_run exsq_env fdt_oracle exs_rcfg recv0
+                           (map (fun p => RvPush p exs_nowr)
+                                (sess_fdt_pkt exs_cfg false exs_now exsp_m 1 exs_sct
+                                 :: obj_wire_fq junk_rep (chunk_rsrc 2) exs_cfg exsp_m 2 closable true ex16 fti)) ctx0 in
+      session_meta_delivered_fq exs_cfg false exs_now exsp_m ex16 exs_rcfg r cx).
+Proof. intros closable fti. split; [exact (exsq_by_theorem closable fti)|exact (exsp_by_theorem closable fti)]. Qed.
+(* ===== end block: C01FQ ===== *)
